@@ -49,6 +49,30 @@ CHECKS = {
    text="MSQueue.tla models the Michael-Scott queue one action per atomic load / CAS / counter update with the abstract FIFO as ghost state and assertions at the linearisation points; TLC checks linearizability, no loss / duplication, per-producer FIFO, the length-lag lemma and termination under weak fairness over all interleavings. Every labelled edge of the graph is executed as a schedule of the real queue under the gate scheduler with head / tail / next pointers and the counter compared after every step; call/return histories of these schedules, of seeded PCT schedules and of ungated stress windows are validated by QueueLin.tla, where TLC searches for a linearisation.",
    note="Trusted: TLC, sequentially consistent atomics, no ABA (GC). Bounds: 2 enqueuers x 1 + 1 dequeuer x 2 replayed; 2x2 + 2x2 model-checked in the thorough tier.",
    tech="TLA+ spec + TLC exhaustive with liveness; TLC state graph replayed as controlled schedules of the real code; trace validation with linearisation search (QueueLin.tla)"),
+ "C01": dict(cat="model_checking", ref="DESIGN.md §4 C01, §3.4",
+   text="Conn.tla models one connection on its loop (read loop with leftovers, LT/ET/ET-chunk, RDHUP handling, adversarial handler) over an abstract kernel and peer; TLC checks prefix/accounting/everything-offered-before-EOF invariants exhaustively and that a sending peer is always served (liveness). Real engines are driven by scripted peers (segmentations incl. 1 byte, exactly the read buffer, data+FIN, lock-step) and handlers (Read/Next/Peek+Discard/Discard/WriteTo, lazy, peek-only); every handler operation, peer action and read(2) result is recorded and validated by TLC against TrIn.tla (content, prefix, consumed+InboundBuffered=delivered at every operation, all offered before an EOF close).",
+   note="Trusted: TLC, the kernel's socket semantics, the recorder's ordering discipline (single sequence under a lock, senders log before publishing). Segmentation inside one read(2) is the kernel's choice except for lock-step peers. BSD/Windows files cannot be built here.",
+   tech="TLA+ spec + TLC exhaustive with liveness (Conn.tla); trace validation of recorded real-socket executions against TrIn.tla / TrLife.tla"),
+ "C02": dict(cat="model_checking", ref="DESIGN.md §4 C02, §3.4",
+   text="Conn.tla carries the outbound side with byte identities (accepted, buffered, in the kernel, received, dropped at close), short writes, EAGAIN, a stalling peer, ReadFrom+Flush, asynchronous writes; TLC checks exact order / no loss while open / LT-armed-iff-backlog and that accepted data drain while the peer reads. Recorded real executions (framed, position-stamped output; Write/Writev/ReadFrom+Flush/OnOpen reply/AsyncWrite(v), floods of >1024 queued requests, tiny socket buffers, slow and stalling peers) are validated against TrOut.tla: per-writer order, content, only-issued, OutboundBuffered = accepted - handed-to-kernel at every operation (write(2) results come from the verif hooks), completeness at drain, stranded-output state witness.",
+   note="As C01. Output that does not fit at close is dropped by design (named deviation CloseBestEffortFlush), so completeness is only required of connections that stay open until drained.",
+   tech="TLA+ spec + TLC exhaustive with liveness (Conn.tla); trace validation against TrOut.tla"),
+ "C04": dict(cat="model_checking", ref="DESIGN.md §4 C04",
+   text="Conn.tla checks open-once / close-once-iff-opened / nil-error-iff-local exhaustively over racing close causes (peer FIN, handler Close action, EventLoop.Close in a callback, asynchronous Close, close at OnOpen). Recorded executions with random histories of close causes, late requests through handles of closed connections while fresh connections reuse their descriptor numbers, farewell writes from OnClose, are validated against TrLife.tla (OpenOnce, TrafficOnlyWhileOpen, CloseOnceIffOpen, CloseErrNilIffLocal, AsyncOnClosedIsErrClosed, WakeCloseOnClosedAreNoops, NeverOnOtherConn, CountEqualsOpenAtQuiescence).",
+   note="As C01. Connected client UDP sockets are not yet driven.",
+   tech="TLA+ spec + TLC exhaustive (Conn.tla); trace validation against TrLife.tla"),
+ "C06": dict(cat="model_checking", ref="DESIGN.md §4 C06",
+   text="Real engines are shut down from every documented source (Engine.Stop, Stop, OnTick, OnOpen, OnTraffic, OnClose actions, OnBoot) in reactor and reuse-port mode while connections are idle, active and being accepted and a slow OnTick is in flight; the recorded executions are validated against TrLife.tla: Run returns nil, every opened connection closed before it returns, OnShutdown exactly once, nothing runs after the return, an OnBoot shutdown starts nothing; a Run that does not return is reported from the harness deadline.",
+   note="Bounded time = 20 s deadline on an otherwise idle machine. The Engine.tla design model (shutdown ordering) is still to be written; the decision is by trace validation.",
+   tech="trace validation of recorded shutdown races against TrLife.tla (TLA+ trace specification checked by TLC)"),
+ "C07": dict(cat="model_checking", ref="DESIGN.md §4 C07",
+   text="A descriptor ledger (TrFd.tla) is fed by verif hooks after every system call that creates, uses, polls or closes a descriptor, by canary goroutines that reuse just-closed numbers at once, by Dup'ed descriptors held beyond the connection's close, and by /proc/self/fd snapshots; TLC validates every recorded execution: fresh descriptors are unowned, use / poll only owned descriptors, close owned once, foreign and user descriptors untouched, nothing owned after Run returns. Conn.tla checks that no system call is made on a closed descriptor in the design.",
+   note="Hooks run after the call; the ledger's `dying` set accounts for numbers the kernel reuses before the close is logged. Known finding KF-1 (pending registrations leak at shutdown) is reported as such.",
+   tech="trace validation against TrFd.tla (TLA+ ledger specification checked by TLC); Conn.tla invariant NoFailedCheck"),
+ "C19": dict(cat="model_checking", ref="DESIGN.md §4 C19",
+   text="Control.tla is the state machine of the control API (never started / running / stopping / stopped x Validate, CountConnections, Dup, DupListener, Register variants, Execute, Enroll, Stop with live and expired contexts); TLC checks monotonicity and enumerates all call sequences up to length 4, each of which is replayed on a real engine with the result class compared; Stop(nil)-only-after-full-shutdown is also checked on the recorded shutdown races (TrLife.tla).",
+   note="Known finding KF-2 (Register during shutdown never yields a result) is reported as such. The poll interval of Engine.Stop is shortened through its package variable for the replay.",
+   tech="TLA+ spec + TLC exhaustive; transition-cover replay of the TLC state graph on real engines; trace validation against TrLife.tla"),
 }
 NOT_YET = {}
 for i in range(1, 21):
